@@ -526,3 +526,202 @@ Qed.
 Lemma life_unregister ops : forall w,
   ok_only_owner_unregisters (w_reqs w) = true -> ok_only_owner_unregisters (w_reqs (life_run ops w)) = true.
 Proof. induction ops as [|o ops IH]; intros w H; simpl; [exact H | apply IH, step_unregister, H]. Qed.
+
+(* ---- the closing of a pilot's session changes nothing for the others ------------ *)
+
+Lemma life_run_app a b w : life_run (a ++ b) w = life_run b (life_run a w).
+Proof. unfold life_run. apply fold_left_app. Qed.
+
+Lemma close_pilot_facts w k : k <> 0 ->
+  w_next (do_close w k) = w_next w /\
+  (forall x, mem x (w_live w) = true -> x <> k -> mem x (w_live (do_close w k)) = true).
+Proof.
+  intros Hk. unfold do_close. destruct (negb (mem k (w_live w))); [split; [reflexivity|auto]|].
+  apply Nat.eqb_neq in Hk. rewrite Hk. simpl. split; [reflexivity|].
+  intros x Hx Hne. rewrite mem_remove, Hx. apply Nat.eqb_neq in Hne. rewrite Hne. reflexivity.
+Qed.
+
+Lemma pilot_close_changes_nothing pre k posts sched rest j s0 c0 src s c :
+  k <> 0 ->
+  let w := life_run pre world0 in
+  nth_error posts j = Some (s0, c0, src) ->
+  mem 0 (w_live w) = true -> mem s0 (w_live w) = true -> s0 <> k ->
+  mem s (w_live w) = true -> s <> k ->
+  count_at s c (w_next w + j)
+    (log (w_net (life_run (pre ++ Close k :: Round posts sched :: rest) world0)))
+  = expected (w_next w + j) (s0, c0, src) s c.
+Proof.
+  intros Hk w Hnth H0 Hs0 Hs0k Hs Hsk. rewrite life_run_app. fold w.
+  assert (Hinv : inv w) by (apply inv_run, inv0).
+  destruct (close_pilot_facts w k Hk) as [Hn Hm].
+  rewrite <- Hn.
+  apply (life_counts (Close k :: Round posts sched :: rest) w Hinv
+           (w_live (do_close w k)) (w_reg (do_close w k)) (w_next (do_close w k)) posts).
+  - simpl. left. reflexivity.
+  - exact Hnth.
+  - apply Hm; [exact H0 | intros E; apply Hk; symmetry; exact E].
+  - apply Hm; assumption.
+  - apply Hm; assumption.
+Qed.
+
+(* ---- the model satisfies the life-cycle oracle ------------------------------------ *)
+
+Lemma in_others_of live s0 s : In s (others_of live s0) <-> In s live /\ s <> s0.
+Proof. unfold others_of. rewrite filter_In, negb_true_iff, Nat.eqb_neq. reflexivity. Qed.
+
+Lemma model_life_exactly_once ops :
+  ok_life_exactly_once ops (log (w_net (life_run ops world0))) = true.
+Proof.
+  unfold ok_life_exactly_once, all_rounds. apply forallb_forall. intros [[[live reg] k] posts] Hin.
+  apply all_posts_spec. intros j [[s0 c0] src] Hnth.
+  destruct (mem s0 live) eqn:E1; cbn [negb orb]; [|reflexivity].
+  destruct (mem 0 live) eqn:E2; cbn [negb orb]; [|reflexivity].
+  destruct (post_crosses (k + j) (s0, c0, src)) eqn:E3; cbn [negb orb]; [|reflexivity].
+  apply forallb_forall. intros s Hs. apply in_others_of in Hs as [Hs Hne]. apply Nat.eqb_eq.
+  rewrite (life_counts ops world0 inv0 live reg k posts Hin j s0 c0 src Hnth E2 E1 s c0)
+    by (apply mem_In; exact Hs).
+  rewrite (expected_other _ _ _ _ _ Hne), E3. reflexivity.
+Qed.
+
+(* rounds played without the client session (before it connects there is no
+   live side; after it closed the remaining pilots only talk to themselves) *)
+Lemma run_down_counts sides s c i fuel : forall sched st,
+  (forall p, In p (pending st) -> on_proxy p = false) -> length (pending st) <= fuel ->
+  count_at s c i (log (run_up false sides fuel sched st))
+  = count_at s c i (log st) + sum_map (cnt sides s c i) (pending st).
+Proof.
+  induction fuel as [|f IH]; intros sched st Hloc Hf; simpl.
+  - destruct (pending st); simpl in *; lia.
+  - unfold step_up. destruct (pick (hd 0 sched) (pending st)) as [[p rest]|] eqn:E.
+    + apply pick_split in E as (a & b & Hab & ->).
+      assert (Hp : on_proxy p = false) by (apply Hloc; rewrite Hab; apply in_or_app; right; left; reflexivity).
+      rewrite (kids_down_local sides p Hp), app_nil_r. rewrite IH; simpl.
+      * rewrite Hab, !sum_map_app. simpl. unfold count_at at 1. rewrite count_ev_app.
+        fold (count_at s c i (log st)). fold (count_at s c i (deliveries sides p)). fold (cnt sides s c i p). lia.
+      * intros q Hq. apply Hloc. rewrite Hab. apply in_app_or in Hq as [Hq|Hq]; apply in_or_app;
+          [left; exact Hq | right; right; exact Hq].
+      * rewrite Hab, app_length in Hf. simpl in Hf. rewrite app_length. lia.
+    + destruct (pending st) as [|p l] eqn:Ep; [simpl; lia|].
+      destruct (pick_nonempty (hd 0 sched) (p :: l)) as (p' & rest & Hp); [discriminate|].
+      rewrite Hp in E. discriminate.
+Qed.
+
+Lemma round_counts_down w posts sched j s0 c0 src s c :
+  inv w -> mem 0 (w_live w) = false ->
+  nth_error posts j = Some (s0, c0, src) -> mem s0 (w_live w) = true ->
+  count_at s c (w_next w + j) (log (w_net (do_round w posts sched)))
+  = if Nat.eqb s0 s && chan_eqb c0 c then 1 else 0.
+Proof.
+  intros Hinv H0 Hnth Hs0. pose proof Hinv as (Hnd & Hreg & Hp & Hl).
+  set (i := w_next w + j).
+  assert (Hreg' : w_reg w = false) by (rewrite Hreg; exact H0).
+  unfold do_round. cbn [w_net]. rewrite Hp, Hreg'. cbn [app]. fold (new_pubs w posts).
+  rewrite run_down_counts; simpl.
+  - rewrite (count_fresh w s c i Hinv) by (unfold i; lia).
+    unfold new_pubs. rewrite sum_map_filter.
+    rewrite (sum_posts (fun p => if live_pub (w_live w) p then cnt (w_live w) s c i p else 0) i).
+    + replace (w_next w <=? i) with true by (symmetry; apply Nat.leb_le; unfold i; lia).
+      replace (i - w_next w) with j by (unfold i; lia).
+      assert (Hn' : @nth_error post posts j = Some (s0, c0, src)) by exact Hnth.
+      rewrite Hn'. unfold post_pub. cbn [live_pub p_bus]. rewrite Hs0.
+      rewrite (cnt_local_live (w_live w) s c i s0 c0 _ Hnd), Hs0, source_msg_id, Nat.eqb_refl, andb_true_r.
+      simpl. reflexivity.
+    + intros p Hne. destruct (live_pub (w_live w) p); [|reflexivity]. apply cnt_other_id. exact Hne.
+  - intros p Hin. apply new_pubs_in in Hin. exact (posts_from_local _ _ _ Hin).
+  - pose proof (new_pubs_length w posts). unfold round_bound. nia.
+Qed.
+
+Lemma life_counts_down ops : forall w, inv w ->
+  forall live reg k posts, In (live, reg, k, posts) (rounds_from w ops) ->
+  forall j s0 c0 src, nth_error posts j = Some (s0, c0, src) ->
+  mem 0 live = false -> mem s0 live = true ->
+  forall s c,
+  count_at s c (k + j) (log (w_net (life_run ops w))) = if Nat.eqb s0 s && chan_eqb c0 c then 1 else 0.
+Proof.
+  induction ops as [|o ops IH]; intros w Hinv live reg k posts Hin j s0 c0 src Hnth H0 Hs0 s c;
+    simpl in Hin; [contradiction|].
+  apply in_app_or in Hin as [Hin|Hin].
+  - destruct o as [x|x|posts' sched]; try contradiction.
+    destruct Hin as [Hin|[]]. injection Hin as <- <- <- <-. simpl.
+    rewrite run_log_stable.
+    + apply (round_counts_down w posts' sched j s0 c0 src s c); assumption.
+    + apply inv_round. exact Hinv.
+    + unfold do_round. cbn [w_next]. assert (j < length posts') by (apply nth_error_Some; congruence). lia.
+  - simpl. apply (IH (life_step w o) (inv_step w o Hinv) live reg k posts Hin j s0 c0 src Hnth H0 Hs0 s c).
+Qed.
+
+Lemma model_life_not_back ops :
+  ok_life_not_back ops (log (w_net (life_run ops world0))) = true.
+Proof.
+  unfold ok_life_not_back, all_rounds. apply forallb_forall. intros [[[live reg] k] posts] Hin.
+  apply all_posts_spec. intros j [[s0 c0] src] Hnth.
+  destruct (mem s0 live) eqn:E1; cbn [negb orb]; [|reflexivity].
+  apply Nat.eqb_eq. destruct (mem 0 live) eqn:E2.
+  - rewrite (life_counts ops world0 inv0 live reg k posts Hin j s0 c0 src Hnth E2 E1 s0 c0 E1).
+    apply expected_own.
+  - rewrite (life_counts_down ops world0 inv0 live reg k posts Hin j s0 c0 src Hnth E2 E1 s0 c0).
+    rewrite Nat.eqb_refl, chan_eqb_refl. reflexivity.
+Qed.
+
+Lemma model_life_stays_local ops :
+  ok_life_stays_local ops (log (w_net (life_run ops world0))) = true.
+Proof.
+  unfold ok_life_stays_local, all_rounds. apply forallb_forall. intros [[[live reg] k] posts] Hin.
+  apply all_posts_spec. intros j [[s0 c0] src] Hnth.
+  destruct (mem s0 live) eqn:E1; cbn [negb orb]; [|reflexivity].
+  destruct (post_crosses (k + j) (s0, c0, src)) eqn:E3; cbn [negb orb]; [reflexivity|].
+  apply forallb_forall. intros s Hs. apply in_others_of in Hs as [Hs Hne]. apply Nat.eqb_eq.
+  destruct (mem 0 live) eqn:E2.
+  - rewrite (life_counts ops world0 inv0 live reg k posts Hin j s0 c0 src Hnth E2 E1 s c0)
+      by (apply mem_In; exact Hs).
+    rewrite (expected_other _ _ _ _ _ Hne), E3. reflexivity.
+  - rewrite (life_counts_down ops world0 inv0 live reg k posts Hin j s0 c0 src Hnth E2 E1 s c0).
+    replace (Nat.eqb s0 s) with false by (symmetry; apply Nat.eqb_neq; intros E; apply Hne; symmetry; exact E).
+    reflexivity.
+Qed.
+
+Lemma model_life_no_circulation ops :
+  let w := life_run ops world0 in
+  ok_life_no_circulation ops (npub (w_net w)) (quiescent (w_net w)) = true.
+Proof.
+  destruct (life_quiet ops world0 inv0) as [Hq Hn]. unfold ok_life_no_circulation, quiescent.
+  cbv zeta. rewrite Hq. simpl in Hn. apply Nat.leb_le in Hn. rewrite Hn. reflexivity.
+Qed.
+
+Lemma model_only_owner_unregisters ops :
+  ok_only_owner_unregisters (w_reqs (life_run ops world0)) = true.
+Proof. apply life_unregister. reflexivity. Qed.
+
+(* ---- statements from the empty world ------------------------------------------------ *)
+
+Lemma life_counts0 ops live reg k posts :
+  In (live, reg, k, posts) (rounds_from world0 ops) ->
+  forall j s0 c0 src, nth_error posts j = Some (s0, c0, src) ->
+  mem 0 live = true -> mem s0 live = true ->
+  forall s c, mem s live = true ->
+  count_at s c (k + j) (log (w_net (life_run ops world0))) = expected (k + j) (s0, c0, src) s c.
+Proof. exact (life_counts ops world0 inv0 live reg k posts). Qed.
+
+Lemma life_counts_down0 ops live reg k posts :
+  In (live, reg, k, posts) (rounds_from world0 ops) ->
+  forall j s0 c0 src, nth_error posts j = Some (s0, c0, src) ->
+  mem 0 live = false -> mem s0 live = true ->
+  forall s c,
+  count_at s c (k + j) (log (w_net (life_run ops world0))) = if Nat.eqb s0 s && chan_eqb c0 c then 1 else 0.
+Proof. exact (life_counts_down ops world0 inv0 live reg k posts). Qed.
+
+Lemma life_quiet0 ops :
+  pending (w_net (life_run ops world0)) = [] /\
+  npub (w_net (life_run ops world0)) <= pub_budget (rounds_from world0 ops).
+Proof. exact (life_quiet ops world0 inv0). Qed.
+
+Lemma model_life_all_clauses ops :
+  let w := life_run ops world0 in
+  ok_life_exactly_once ops (log (w_net w)) = true /\ ok_life_not_back ops (log (w_net w)) = true /\
+  ok_life_stays_local ops (log (w_net w)) = true /\
+  ok_life_no_circulation ops (npub (w_net w)) (quiescent (w_net w)) = true /\
+  ok_only_owner_unregisters (w_reqs w) = true.
+Proof.
+  repeat split; [apply model_life_exactly_once | apply model_life_not_back | apply model_life_stays_local
+                 | apply model_life_no_circulation | apply model_only_owner_unregisters].
+Qed.
